@@ -26,8 +26,17 @@ import (
 //   (i)   reference: one command per write, reply awaited before the next command is sent;
 //   (ii)  the whole program in one write;
 //   (iii) the byte stream cut at the drawn offsets, with 1-2 ms pauses after a drawn subset of cuts.
-// Oracle: strict parser reads exactly one reply per command, then the sentinel's reply, then nothing;
-// reply bytes of (ii) and (iii) equal those of (i); stored bytes read back identical.
+// Every run ends with the sentinel ECHO <nonce> (nonce = hash of the program).
+// Oracle: (1) the strict parser reads exactly one reply per command, then the sentinel's reply is the
+// nonce, then the connection stays quiet for 20 ms; (2) the reply bytes of (ii) and (iii) equal those of
+// (i) - replies that are unordered collections (KEYS, SMEMBERS, HGETALL, ...: the emulator walks Go maps)
+// are compared as multisets, and replies that legitimately depend on the clock, the connection or a
+// random choice (INFO, CLIENT ID/INFO/LIST, RANDOMKEY, *RAND*, TTL, *SCAN, COMMAND LIST/DOCS/INFO) are
+// only subject to (1); (3) a write acknowledged with a success reply and immediately followed by a
+// read-back of the same key returns the stored bytes unchanged, and ECHO/PING return their argument.
+//
+// Defects found by this check that are still open in /repo are avoided behind predicates marked
+// TEMP-EXCLUDE (c01Excluded, c01TolerateResp2Null); C01_NOEXCLUDE=1 disables all of them.
 
 // C01Cut describes one cut symbolically so that it stays valid when rapid shrinks the program:
 // every field is reduced modulo what the program actually offers.
@@ -61,7 +70,9 @@ const (
 // c01Excluded returns the id of the listed defect that the command would trigger ("" = none).
 // C01_NOEXCLUDE=1 switches the predicates off (sensitivity check: the search must then find the defects).
 func c01Excluded(argv kit.Argv, proto int) string {
-	if len(argv) == 0 || os.Getenv("C01_NOEXCLUDE") != "" {
+	// every defect these predicates avoided has been repaired in /repo (see known_findings.json, "fixed:");
+	// they stay switched off (C01_EXCLUDE=1 re-enables them) so that a regression is reported again
+	if len(argv) == 0 || os.Getenv("C01_EXCLUDE") == "" {
 		return ""
 	}
 	name := strings.ToLower(string(argv[0]))
@@ -98,7 +109,7 @@ func c01Excluded(argv kit.Argv, proto int) string {
 // TEMP-EXCLUDE: on a RESP3 connection the emulator encodes "no value" as the RESP2 null "$-1\r\n"
 // instead of "_\r\n" (respSerializer.go serializeValue, case nil). That is a protocol-version matter
 // (property C15); C01 tolerates it while it is open so that the search goes on behind it.
-var c01TolerateResp2Null = os.Getenv("C01_NOEXCLUDE") == ""
+var c01TolerateResp2Null = os.Getenv("C01_EXCLUDE") != ""
 
 // c01Known: command names the generator uses with their real meaning (lower case).
 var c01Known = map[string]bool{
@@ -1239,7 +1250,11 @@ func c01Run(c C01Case, st *kit.Stats) error {
 	}
 
 	// three fresh emulators (started concurrently: start-up is the dominant fixed cost)
-	emus := make([]*kit.Emu, 3)
+	nEmus := 3
+	if len(offs) == 0 {
+		nEmus = 2
+	}
+	emus := make([]*kit.Emu, nEmus)
 	var wg sync.WaitGroup
 	for i := range emus {
 		wg.Add(1)
@@ -1279,8 +1294,10 @@ func c01Run(c C01Case, st *kit.Stats) error {
 	if everyByte {
 		cutMode = fmt.Sprintf("one byte per write (%d bytes, pause every %d)", total, c.PauseEvery)
 	}
-	if err := exec(cutMode, emus[2], cutSegs, false); err != nil {
-		return err
+	if len(offs) > 0 { // without cuts run (iii) would repeat run (ii)
+		if err := exec(cutMode, emus[2], cutSegs, false); err != nil {
+			return err
+		}
 	}
 	// oracle (2)
 	for _, r := range runs[1:] {
